@@ -602,6 +602,10 @@ package gedcom
 // returned as it is, with what was read so far).
 //@ func Decoder.readLine
 //@   props C02 C03
+// (C03: no index, slice or nil panic of its own while reading; the reader is
+// the one NewDecoder installed)
+//@   safety C03
+//@   requires dec != nil
 //@   ghost nRead int = 0
 //@   ghost nKept int = 0
 //@   ghost rerr iface
@@ -1315,8 +1319,20 @@ package gedcom
 //@   oncall parseDateParts#3 check single-start: len(parts) == 0 && arg0 == dateString && arg1 == false
 //@   oncall parseDateParts#4 check single-end: len(parts) == 0 && arg0 == dateString && arg1 == true
 //@   oncall parseDateParts do n = n + 1
-//@   oncall NewDateRange#1 check order: arg0 == datePart1 && arg1 == datePart2
-//@   oncall NewDateRange#2 check order: arg0 == datePart1 && arg1 == datePart2
+// the range is built from what was parsed AS the start and AS the end (filed by
+// the end flag handed to the parser), in that order - whatever local variables
+// the values travel through
+//@   ghost sD int = 0
+//@   ghost sM int = 0
+//@   ghost sY int = 0
+//@   ghost sC int = 0
+//@   ghost eD int = 0
+//@   ghost eM int = 0
+//@   ghost eY int = 0
+//@   ghost eC int = 0
+//@   oncall parseDateParts when !arg1 do sD = result.Day; sM = result.Month; sY = result.Year; sC = result.Constraint
+//@   oncall parseDateParts when arg1 do eD = result.Day; eM = result.Month; eY = result.Year; eC = result.Constraint
+//@   oncall NewDateRange check ends-as-parsed: arg0.Day == sD && arg0.Month == sM && arg0.Year == sY && arg0.Constraint == sC && arg1.Day == eD && arg1.Month == eM && arg1.Year == eY && arg1.Constraint == eC
 //@   ensures two-ends: n == 2
 //@ func NewDateRange
 //@   props C04
